@@ -25,14 +25,20 @@ def save_meta(d, m):
     json.dump(m, open(os.path.join(d, "meta.json"), "w"), indent=1, sort_keys=True)
 
 
-def do_import(pid, i, round2=False):
+def do_import(pid, i, round2=False, rnd=None):
     src = ("/tmp/mut2/%s-out" if round2 else "/tmp/mut/%s-out") % pid
     name = "%s-m%s" % (pid, int(i) + 2 if round2 else i)
+    if rnd:
+        src = "/tmp/mut%s/%s-out" % (rnd, pid)
+        k = 1
+        while os.path.exists(os.path.join(SEEDED, "%s-m%d" % (pid, k))):
+            k += 1
+        name = "%s-m%d" % (pid, k)
     d = os.path.join(SEEDED, name)
     os.makedirs(d, exist_ok=True)
     shutil.copy(os.path.join(src, "m%s.patch" % i), os.path.join(d, "patch.diff"))
     md = os.path.join(src, "m%s.md" % i)
-    text = open(md).read().replace(src + "/", "").replace("/tmp/mut2/%s" % pid, "<worktree>").replace("/tmp/mut/%s" % pid, "<worktree>")
+    text = open(md).read().replace(src + "/", "").replace("/tmp/mut%s/%s" % (rnd or 2, pid), "<worktree>").replace("/tmp/mut/%s" % pid, "<worktree>")
     open(os.path.join(d, "demonstration.md"), "w").write(text)
     demos = []
     for f in sorted(glob.glob(os.path.join(src, "m%s[-_.]*" % i)) + glob.glob(os.path.join(src, "m%s[a-z]*" % i))):
@@ -46,7 +52,7 @@ def do_import(pid, i, round2=False):
     files = re.findall(r"^\+\+\+ b/(\S+)", patch, re.M)
     m = load_meta(d)
     title = re.search(r"^#\s*(.*)$", text, re.M)
-    m.update({"id": name, "property": pid, "origin": "fresh sub-agent given only the property text and a scratch worktree (mc/mutprompt.py)" + (", second round: also told which changes others had already proposed" if round2 else ""),
+    m.update({"id": name, "property": pid, "origin": "fresh sub-agent given only the property text and a scratch worktree (mc/mutprompt.py)" + (", later round: also told which changes others had already proposed" if (round2 or rnd) else ""),
               "files_touched": files, "summary": title.group(1).strip() if title else "", "demo_files": sorted(set(demos)),
               "agent_reported_tests_pass": True})
     save_meta(d, m)
@@ -152,6 +158,8 @@ if __name__ == "__main__":
         do_import(sys.argv[2], sys.argv[3])
     elif cmd == "import2":
         do_import(sys.argv[2], sys.argv[3], True)
+    elif cmd == "import3":
+        do_import(sys.argv[2], sys.argv[3], False, "3")
     elif cmd == "confirm":
         do_confirm(sys.argv[2])
     elif cmd == "check":
